@@ -366,7 +366,8 @@ func graphCase(pe, ae, be edge, layout string, entry string) Case {
 
 // ---------------------------------------------------------------- family 1: hostile templates
 
-var weird = []string{"", " ", "in", "x in", " in xs", "(a,b,c) in xs", "(,) in xs", "a.b.", ".a", "a[", "a[0", "a[]", "a['", "a | ", "| f", "a || ", "f(", "f(,)", "f(()", "a ? b", "a ? : ", "{{", "}}", "{{ }}", "{a:", "{a:}", "{:}", "{a:b,}", "!", "!!a", "a..b", "1/0", "a % 0", "xs[-1]", "xs[99]", "m.k.k.k", "a | upper | nosuch", "upper()", "len()", "add(1)", "add(1,2,3)", "boom(1)", "a | repeat('x')", "'unclosed", `"unclosed`, "a == ", "== a", "a +", "xs | json | len", "file('nope')", "file(xs)", "jsonFile('page.vuego')", "yamlFile(a)", "a.0.0", "0", "-1", "1e999", "nil", "true", "xs in xs", "x in x in xs", "$", "a\x00b", "日本", "a|b|c|d|e|f", ".", "..", ". > 1", "a | . > 1", "(((((", ")))))", "[[[[", "a[b[c[d]]]", "a ? b ? c : d : e", "not a", "a ?? b", "a?.b", "xs[0:1]", "map(xs, # + 1)", "filter(xs, # > 0)"}
+var weird = []string{"", " ", "in", "x in", " in xs", "(a,b,c) in xs", "(,) in xs", "a.b.", ".a", "a[", "a[0", "a[]", "a['", "a | ", "| f", "a || ", "f(", "f(,)", "f(()", "a ? b", "a ? : ", "{{", "}}", "{{ }}", "{a:", "{a:}", "{:}", "{a:b,}", "!", "!!a", "a..b", "1/0", "a % 0", "xs[-1]", "xs[99]", "m.k.k.k", "a | upper | nosuch", "upper()", "len()", "add(1)", "add(1,2,3)", "boom(1)", "a | repeat('x')", "'unclosed", `"unclosed`, "a == ", "== a", "a +", "xs | json | len", "file('nope')", "file(xs)", "jsonFile('page.vuego')", "yamlFile(a)", "a.0.0", "0", "-1", "1e999", "nil", "true", "xs in xs", "x in x in xs", "$", "a\x00b", "日本", "a|b|c|d|e|f", ".", "..", ". > 1", "a | . > 1", "(((((", ")))))", "[[[[", "a[b[c[d]]]", "a ? b ? c : d : e", "not a", "a ?? b", "a?.b", "xs[0:1]", "map(xs, # + 1)", "filter(xs, # > 0)",
+	"a | default(')", "a | default(\")", "a | default('a', ')", "upper(')", "a | repeat(', 2)", "a | default('')", "a | default(' )", "a | default(,)", "a | default(()", "'", "\"", "''", "a | '", "f('", "a[']"}
 
 var directives = []string{"v-if", "v-else-if", "v-else", "v-for", "v-show", "v-html", "v-text", "v-once", "v-pre", "v-keep", "v-slot", "v-slot:a", "#a", ":class", ":style", ":title", "v-bind:x", ":required", ":require", "include", "[x]", "[:x]", "[v-if]", ":", "v-", "v-bind:", "#", "name", "slot"}
 
@@ -374,6 +375,8 @@ func genHostile(t *rapid.T) Case {
 	base := rapid.SampledFrom([]string{
 		`<div><p>{{ a }}</p><ul><li v-for="x in xs">{{ x }}</li></ul></div>`,
 		`<template include="c.vuego" :p="a"><template v-slot:s="sp">{{ sp.q }}</template><b>d</b></template>`,
+		`<template include="c.vuego"><template v-html="a"></template><template v-html="b"></template></template>`,
+		`<ul><li v-for="x in xs"><template v-html="a"></template><template include="c.vuego" :p="x"><i v-text="x"></i></template></li></ul>`,
 		`<p v-if="a">1</p><p v-else-if="b">2</p><p v-else>3</p>`,
 		`<slot name="s" :q="a"><i>fb</i></slot><slot></slot>`,
 		`<template :x="a"><p :class="{k: x}" style="a:b" :style="{c: x}">{{ x | upper }}</p></template>`,
@@ -478,6 +481,31 @@ func fanOutCycle(files map[string]string) bool {
 		}
 	}
 	return false
+}
+
+// trickySets: small file sets in which content can refer back to itself.
+var trickySets = []map[string]string{
+	// slot content passed up through a layout that contains a <slot> of the same name
+	{"page.vuego": "---\nlayout: lay\n---\n<template #side><slot name=\"side\"><i>fb</i></slot></template><p>page</p>",
+		"layouts/lay.vuego": `<html><body><aside><slot name="side">none</slot></aside><div v-html="content"></div></body></html>`},
+	{"page.vuego": "<template #side><p>s</p><slot name=\"side\"></slot><slot></slot></template><p>page</p>",
+		"layouts/base.vuego": `<div><slot name="side"></slot><slot name="side"></slot><main v-html="content"></main></div>`},
+	// component slot content that contains the same slot, default and named, nested twice
+	{"page.vuego": `<template include="c.vuego"><template v-slot:s><slot name="s"><slot name="s"></slot></slot></template><slot></slot></template>`,
+		"c.vuego": `<div><slot name="s"></slot><slot></slot><slot name="s"></slot></div>`},
+	// the same template v-html / include / element given to a slot that is used several times
+	{"page.vuego": `<template include="c.vuego"><template v-html="a"></template></template>`,
+		"c.vuego": `<div><slot></slot><slot></slot><i v-for="x in xs"><slot></slot></i></div>`},
+	{"page.vuego": `<template include="c.vuego"><template include="d.vuego" :p="a"></template><template v-if="yes"><b>{{ a }}</b></template></template>`,
+		"c.vuego": `<div><slot></slot><hr><slot></slot></div>`, "d.vuego": `<template v-html="p"></template>`},
+	// a component that passes its own slot on to itself through another component
+	{"page.vuego": `<template include="c.vuego"><p>x</p></template>`,
+		"c.vuego": `<template include="d.vuego"><slot></slot></template>`, "d.vuego": `<section><slot></slot><template include="e.vuego"><slot></slot></template></section>`, "e.vuego": `<em><slot></slot></em>`},
+	// layout whose content includes the page again
+	{"page.vuego": "---\nlayout: lay\n---\n<p>page</p>", "layouts/lay.vuego": `<div v-html="content"></div><template include="page.vuego"></template>`},
+	// v-for over a template that v-htmls, inside a parent, with an include of a looping component
+	{"page.vuego": `<ul><template v-for="x in xs" v-html="a"></template><li v-for="x in xs"><template include="c.vuego" :xs="xs"></template></li></ul>`,
+		"c.vuego": `<b v-for="y in xs"><template v-html="y"></template></b>`},
 }
 
 func nthIndex(s, sub string, n int) int {
@@ -612,6 +640,14 @@ func TestProp(t *testing.T) {
 	}
 	if okG {
 		rec.Exhaustive(fmt.Sprintf("include graphs over {page,a,b} with one include edge per file x %d placements (%d graphs), layout shapes rotating over %v", len(places), gi, layouts))
+	}
+
+	// hand-written self-referential shapes (slots, layouts, template v-html), every entry point
+	for _, files := range trickySets {
+		for _, e := range entries {
+			c := Case{Files: files, Entry: e, Data: map[string]vals.V{"a": vals.Str("<b>A</b>"), "b": vals.Int(0), "yes": vals.Bool(true), "xs": vals.List("[]any", vals.Int(1), vals.Str("two"))}}
+			each("tricky", c, "family=tricky")
+		}
 	}
 
 	// family 1: mutated / hostile template sources
